@@ -722,7 +722,10 @@ def run(ctx):
         "the kernel elements whose data partner exists - max(k_min, c - in_max) .. min(k_max, c - in_min) with the kernel's and the data's "
         "index range of the SAME axis (for the 1D filter, whose start depends on the boundary condition, the upper bound) - so no kernel "
         "coefficient is dropped and none outside the kernel is read; (b) inverse_fourier / inverse_fourier_1d are the forward transform "
-        "with the opposite sign followed by division by the number of elements. NOT decided: every numerical identity of C19 (inverse of "
+        "with the opposite sign followed by division by the number of elements; (c) the padded-DFT route copies in, filters, copies out through "
+        "the modulo map; (d) every call between the transforms passes the caller's sign; (e) no length guard of the 1D transforms refuses a "
+        "length that arises for data of the lengths 2..1024 (guards folded over that list) and the real inverse returns the forward's input "
+        "length; (f) kernels limited by a maximum size are rescaled by a sum taken after the limit. NOT decided: every numerical identity of C19 (inverse of "
         "forward, real/complex agreement, Parseval, DFT route = direct convolution, separability, mean preservation)."
     )
     reqs = requests()
